@@ -115,6 +115,18 @@ CHECKS["C04"] = {
     "note": "Array parameters, REDIM inside procedures and ERASE are not generated; rounding ties are discarded.",
     "design": "DESIGN.md section 2 C04",
 }
+CHECKS["C18"] = {
+    "technique": "runtime monitoring: history + executable model - generated histories of file operations run in the real interpreter on a scratch directory, every step reporting its result or ERR code; the report and the directory contents at the end are checked against a model of the store and of the handle table; metamorphic console-vs-file reader comparison",
+    "text": "Random histories of 6-30 steps over three handles, five file names (sequential and random-access), a name in a missing directory and the name of a directory, some files pre-existing; steps OPEN (OUTPUT/APPEND/INPUT/RANDOM), PRINT #, LINE INPUT #, INPUT # (string and numeric variables), EOF, CLOSE (one/two/all), KILL, NAME, FIELD, LSET, PUT, GET, about a third violating the protocol (handle in use -> 55, missing file -> 53, past the end -> 62, closed handle / wrong mode -> a file error, FIELD wider than the record -> 50); hostile texts (commas, quotes, blanks, tabs, CR/LF/CRLF mixes, no final newline) are read from the console and from a file by the same INPUT / LINE INPUT sequence and must split identically.",
+    "note": "Not generated because the property does not define them: the same file open on two handles, KILL/NAME of an open file, NAME onto an existing file, GET beyond the file's extent; padding of short FIELD values (blank or NUL) is not judged.",
+    "design": "DESIGN.md section 2 C18",
+}
+CHECKS["C11"] = {
+    "technique": "runtime monitoring with fault injection: generated programs with recorded statement spans get one fault injected; the position(s) carried by the real parser's, checker's or interpreter's diagnostic are compared with the emitter's span table and, for run-time faults, with the active call statements computed by the reference semantics",
+    "text": "Programs with 1-5 SUB/FUNCTIONs emitted under blank lines, comment lines, trailing comments, colon-joined statements, random indentation and LF / CRLF / CR / mixed line ends; one fault at a statement chosen anywhere in the main module or a procedure body at nesting depth 0-4: run-time (division by zero, overflow, subscript out of range) - the reported list must be [failing statement, call sites innermost first ... main module] with each (row, col) inside that statement's span; static (type mismatch, undefined label, wrong argument count) - row/col inside the statement; syntax (20 broken texts) - the statement's row, column between its first character and the next token.",
+    "note": "The emitter's own row/column bookkeeping is the position oracle; an overflowing FOR increment may be reported on the FOR or the NEXT row; run-time faults the reference does not reach are not judged.",
+    "design": "DESIGN.md section 2 C11",
+}
 NOT_BUILT_REASON = "check not built yet in this round (design in DESIGN.md section 2); nothing is claimed for it"
 
 
